@@ -474,7 +474,11 @@ impl Python {
 
         let mut decorators: Vec<String> = Vec::new();
         if is_aliased {
-            decorators.push(format!("alias=\"{}\"", field.id.renamed));
+            // the wire name is written into a string literal
+            decorators.push(format!(
+                "alias=\"{}\"",
+                field.id.renamed.replace('\\', "\\\\").replace('"', "\\\"")
+            ));
         }
 
         if is_optional || not_optional_but_default {
